@@ -51,6 +51,8 @@ class VCGen:
         self.fresh_n = 0
         self.loop_n = 0
         self.roles = {}   # role -> program variable name; roles are assigned by initializer pattern / event ordinal, never by the name itself
+        self.loop_stack = []   # ids of the loops being translated (innermost last): semantic events are keyed by the enclosing loop, not by syntax
+        self.inline_depth = 0
 
     # ---- helpers ---------------------------------------------------------------------------------------------------
     def ev(self, kind):
@@ -75,6 +77,13 @@ class VCGen:
         if h:
             h(self, st, **kw)
 
+    def dstore(self, st, dname, key, present, old, new):
+        """semantic event of EVERY store into a dict (`d[k] = v`, `d[k] += c`, ...): `dstore@L<innermost loop id>` (or `dstore@L0`) with the
+        key, whether it was present, the old and the new value.  Sidecars attach ghost updates to it instead of to the syntactic form."""
+        lid = self.loop_stack[-1] if self.loop_stack else 0
+        drole = next((r for r, nm in self.roles.items() if nm == dname and r.startswith("D") and not r.startswith("DP")), "D?")
+        self.hook(f"dstore@L{lid}", st, key=key, present=present, old=old, new=new, drole=drole)
+
     def oblige(self, name, st, goal):
         self.obligations.append((name, list(st.pc), goal))
 
@@ -87,7 +96,7 @@ class VCGen:
         if isinstance(e, ast.Constant) and isinstance(e.value, int) and not isinstance(e.value, bool):
             return ("int", z3.IntVal(e.value))
         if isinstance(e, ast.BinOp) and isinstance(e.op, (ast.Add, ast.Sub)):
-            l, r = self.expr(e.left, st), self.expr(e.right, st)
+            l, r = self._val(self.expr(e.left, st)), self._val(self.expr(e.right, st))
             if l[0] == "int" and r[0] == "int":
                 return ("int", l[1] + r[1] if isinstance(e.op, ast.Add) else l[1] - r[1])
         if isinstance(e, ast.UnaryOp) and isinstance(e.op, ast.USub):
@@ -105,8 +114,16 @@ class VCGen:
                 return self.spec.project(st.v[e.value.id][1], e.slice.value)
         raise ExtractError(f"unsupported expression {ast.dump(e)[:80]}")
 
+    @staticmethod
+    def _val(x):
+        return (x[2], x[3]) if x[0] == "opt" else x
+
     def cond(self, e, st):
         """returns z3 Bool for an `if`/`while` test"""
+        if isinstance(e, ast.Compare) and len(e.ops) == 1 and isinstance(e.ops[0], (ast.Is, ast.IsNot)) and isinstance(e.comparators[0], ast.Constant) and e.comparators[0].value is None \
+                and isinstance(e.left, ast.Name) and st.v.get(e.left.id, ("",))[0] == "opt":
+            present = st.v[e.left.id][1]
+            return z3.Not(present) if isinstance(e.ops[0], ast.Is) else present
         if isinstance(e, ast.UnaryOp) and isinstance(e.op, ast.Not):
             return z3.Not(self.cond(e.operand, st))
         if isinstance(e, ast.BoolOp):
@@ -126,7 +143,7 @@ class VCGen:
                 if d[0] != "dict":
                     raise ExtractError("`in` on a non-dict")
                 return z3.Select(d[1], k[1])
-            l, r = self.expr(e.left, st), self.expr(e.comparators[0], st)
+            l, r = self._val(self.expr(e.left, st)), self._val(self.expr(e.comparators[0], st))
             table = {ast.Eq: lambda a, b: a == b, ast.NotEq: lambda a, b: a != b, ast.Lt: lambda a, b: a < b, ast.LtE: lambda a, b: a <= b,
                      ast.Gt: lambda a, b: a > b, ast.GtE: lambda a, b: a >= b}
             if type(op) in table:
@@ -209,11 +226,47 @@ class VCGen:
                     self.role("DP", e_, name)
                     self.hook(e_, st, var=name, key=k[1])
                     return [st]
+            if isinstance(v, ast.IfExp) and isinstance(v.test, ast.Compare) and len(v.test.ops) == 1 and isinstance(v.test.ops[0], (ast.In, ast.NotIn)) \
+                    and isinstance(v.test.comparators[0], ast.Name) and st.v.get(v.test.comparators[0].id, ("",))[0] == "dict":
+                # x = d[k] if k in d else None   (or with `not in` and the branches swapped): the same optional value as d.get(k)
+                pos, neg = (v.body, v.orelse) if isinstance(v.test.ops[0], ast.In) else (v.orelse, v.body)
+                dn = v.test.comparators[0].id
+                if isinstance(neg, ast.Constant) and neg.value is None and isinstance(pos, ast.Subscript) and isinstance(pos.value, ast.Name) and pos.value.id == dn \
+                        and ast.dump(pos.slice) == ast.dump(v.test.left):
+                    v = ast.Call(func=ast.Attribute(value=ast.Name(id=dn, ctx=ast.Load()), attr="get", ctx=ast.Load()), args=[v.test.left], keywords=[])
+            if isinstance(v, ast.Call) and isinstance(v.func, ast.Attribute) and v.func.attr == "get" and isinstance(v.func.value, ast.Name) and len(v.args) == 2 \
+                    and isinstance(v.args[1], ast.Constant) and v.args[1].value is None:
+                v = ast.Call(func=v.func, args=[v.args[0]], keywords=[])
+            if isinstance(v, ast.Call) and isinstance(v.func, ast.Attribute) and v.func.attr == "get" and isinstance(v.func.value, ast.Name) and len(v.args) == 1 \
+                    and st.v.get(v.func.value.id, ("",))[0] == "dict":
+                # x = d.get(k): an OPTIONAL value (present?, value); `x is None` tests the presence, arithmetic on x uses the value
+                k = self.expr(v.args[0], st)
+                _, has, val = st.v[v.func.value.id]
+                drole = next((r for r, nm in self.roles.items() if nm == v.func.value.id and r.startswith("D") and not r.startswith("DP")), None)
+                st.v[name] = ("opt", z3.Select(has, k[1]), self.spec.DICT_VAL.get(drole, "int"), z3.Select(val, k[1]), v.func.value.id, k[1])
+                return [st]
             if isinstance(v, ast.Call):
                 r = S.call(self, st, name, v)
                 if r is not None:
                     return r
+                r = self.inline_call(st, name, v)
+                if r is not None:
+                    return r
+            if isinstance(v, (ast.Name, ast.BinOp, ast.Subscript, ast.UnaryOp, ast.Constant)):
+                st.v[name] = self.expr(v, st)      # a local that merely names a value
+                return [st]
             raise ExtractError(f"unsupported assignment {ast.unparse(s)[:80]}")
+        if isinstance(s, ast.Assign) and len(s.targets) == 1 and isinstance(s.targets[0], ast.Tuple) and len(s.targets[0].elts) == 2 \
+                and all(isinstance(e_, ast.Name) for e_ in s.targets[0].elts) and isinstance(s.value, ast.Call) and isinstance(s.value.func, ast.Attribute) and s.value.func.attr == "pop" \
+                and isinstance(s.value.func.value, ast.Name) and st.v.get(s.value.func.value.id, ("",))[0] == "dict" and len(s.value.args) == 1:
+            # a, b = d.pop(k): the popped pair gets the synthetic name $popped (role DP1), a and b name its components
+            outs = self.stmt(ast.Assign(targets=[ast.Name(id="$popped", ctx=ast.Store())], value=s.value), st)
+            for e_ in outs:
+                if e_.v.get("$popped", ("",))[0] != "pair":
+                    raise ExtractError("tuple unpacking of a dict value that is not a pair")
+                for i_, tg in enumerate(s.targets[0].elts):
+                    e_.v[tg.id] = self.spec.project(e_.v["$popped"][1], i_)
+            return outs
         if isinstance(s, ast.Assign) and len(s.targets) == 1 and isinstance(s.targets[0], ast.Subscript):
             t = s.targets[0]
             if isinstance(t.value, ast.Name) and st.v.get(t.value.id, ("",))[0] == "dict":
@@ -223,9 +276,11 @@ class VCGen:
                     e = self.ev("setsub")
                     S.setsub_call(self, st, t.value.id, k[1], s.value, e)
                     return [st]
-                x = self.expr(s.value, st)
+                x = self._val(self.expr(s.value, st))
+                present, old = z3.Select(has, k[1]), z3.Select(val, k[1])
                 st.v[t.value.id] = ("dict", z3.Store(has, k[1], True), z3.Store(val, k[1], x[1]))
                 self.hook(self.ev("setsub"), st, key=k[1])
+                self.dstore(st, t.value.id, k[1], present, old, x[1])
                 return [st]
         if isinstance(s, ast.AugAssign) and isinstance(s.target, ast.Subscript) and isinstance(s.target.value, ast.Name):
             t = s.target
@@ -238,6 +293,7 @@ class VCGen:
                 new = old + x[1] if isinstance(s.op, ast.Add) else old - x[1]
                 st.v[t.value.id] = ("dict", has, z3.Store(val, k[1], new))
                 self.hook(self.ev("augsub"), st, key=k[1], old=old)
+                self.dstore(st, t.value.id, k[1], z3.BoolVal(True), old, new)
                 return [st]
         if isinstance(s, ast.Expr) and isinstance(s.value, ast.Call) and isinstance(s.value.func, ast.Attribute) and isinstance(s.value.func.value, ast.Name):
             f, lname = s.value.func, s.value.func.value.id
@@ -294,6 +350,58 @@ class VCGen:
         if isinstance(s, ast.Pass):
             return [st]
         raise ExtractError(f"unsupported statement {ast.unparse(s)[:80]}")
+
+    def inline_call(self, st, target, call):
+        """`x = helper(a, b)` where helper is a plain function of the SAME module: its body is translated in place (parameters bound to the argument
+        values, locals renamed, the single trailing `return <name or expr>` bound to the target), so that extracting part of a function into a private
+        helper does not change the verification conditions."""
+        if not isinstance(call.func, ast.Name) or call.keywords or self.inline_depth >= 2:
+            return None
+        import types
+        callee = self.fn.__globals__.get(call.func.id)
+        if not isinstance(callee, types.FunctionType) or callee.__module__ != self.fn.__module__ or callee is self.fn:
+            return None
+        try:
+            htree = ast.parse(textwrap.dedent(inspect.getsource(callee))).body[0]
+        except (OSError, TypeError, IndexError):
+            return None
+        params = [a.arg for a in htree.args.args]
+        if htree.args.vararg or htree.args.kwarg or len(params) != len(call.args) or not htree.body:
+            return None
+        body = [b for b in htree.body if not (isinstance(b, ast.Expr) and isinstance(b.value, ast.Constant))]
+        if not body or not isinstance(body[-1], ast.Return) or any(isinstance(n, (ast.Return, ast.Yield, ast.YieldFrom)) for b in body[:-1] for n in ast.walk(b)):
+            return None
+        pre = f"h{self.inline_depth + 1}${call.func.id}$"
+        locs = set(params) | {n.id for b in body for n in ast.walk(b) if isinstance(n, ast.Name) and isinstance(n.ctx, ast.Store)}
+
+        class Ren(ast.NodeTransformer):
+            def visit_Name(self_, n):
+                return ast.copy_location(ast.Name(id=pre + n.id, ctx=n.ctx), n) if n.id in locs else n
+        body = [Ren().visit(b) for b in body]
+        ast.fix_missing_locations(ast.Module(body=body, type_ignores=[]))
+        for pname, a in zip(params, call.args):
+            st.v[pre + pname] = self.expr(a, st) if not (isinstance(a, ast.Name) and a.id in getattr(self.spec, "PARENTS_FUN", ())) else ("fun", None)
+            if isinstance(a, ast.Name) and a.id in getattr(self.spec, "PARENTS_FUN", ()) and (pre + pname) not in self.spec.PARENTS_FUN:
+                if isinstance(self.spec.PARENTS_FUN, set):
+                    self.spec.PARENTS_FUN.add(pre + pname)
+                else:
+                    self.spec.PARENTS_FUN = tuple(self.spec.PARENTS_FUN) + (pre + pname,)
+        self.inline_depth += 1
+        try:
+            states = self.block(body[:-1], st)
+        finally:
+            self.inline_depth -= 1
+        out = []
+        for e in states:
+            rv = body[-1].value
+            e.v[target] = e.v[rv.id] if isinstance(rv, ast.Name) and rv.id in e.v else self.expr(rv, e)
+            # the target takes over the roles of the returned local (e.g. D1 for the dict that was built in the helper)
+            if isinstance(rv, ast.Name):
+                for r_, nm in list(self.roles.items()):
+                    if nm == rv.id:
+                        self.roles[r_] = target
+            out.append(e)
+        return out
 
     def tuple_or_expr(self, e, st):
         return self.spec.pack(self, st, e)
@@ -368,7 +476,11 @@ class VCGen:
             self._cont, self._brk = [], []
         self._cont.append([])
         self._brk.append([])
-        ends = self.block(s.body, body)
+        self.loop_stack.append(lid)
+        try:
+            ends = self.block(s.body, body)
+        finally:
+            self.loop_stack.pop()
         ends = ends + self._cont.pop()
         broken = self._brk.pop()
         for e in ends:
